@@ -66,7 +66,7 @@ def _call_expr(c, in_module, prog):
     if form == "bare":
         return "%s(%s)" % (t, a)
     if form == "modattr":
-        return "%s.%s(%s)" % ("b" if tf["module"] == "b" and in_module == "a" else "a", t, a)
+        return "%s.%s(%s)" % ("b" if (tf is None or tf["module"] == "b") and in_module == "a" else "a", t, a)
     if form == "alias":
         return "%s_alias(%s)" % (t, a)
     if form == "wrapper":
@@ -162,8 +162,11 @@ def render(prog, plain=False, pkg="vfp"):
             parts.append("import twosigma.memento as m\n")
         if mod == "a" and has_q:
             parts.append("from vfq import lib as qlib\n")
-        if mod == "a" and any(f["module"] == "b" for f in prog["funcs"]):
+        if mod == "a" and any(f["module"] == "b" for f in prog["funcs"]) and not prog.get("b_broken"):
             parts.append("from . import b\n")
+        if mod == "b" and prog.get("b_broken"):
+            # module b still exists but can no longer be imported (something it imports is gone); nobody imports it
+            parts.append("import vfp_helper_that_was_removed\n")
         parts.append(PASSTHRU)
         if mod == "a":
             for k, v in prog.get("vars", {}).items():
